@@ -58,7 +58,7 @@ func init() {
 func c20Run(ctx *core.Ctx) {
 	maxOrder, nConc, nReplay := 3, 1500, 1500
 	if ctx.Thorough() {
-		maxOrder, nConc, nReplay = 5, 20000, 30000
+		maxOrder, nConc, nReplay = 5, 60000, 120000
 	}
 	if ctx.Part != "race" && ctx.Part != "norace" {
 		nConc /= 3
